@@ -2,3 +2,5 @@ import FcpModel.Bits
 import FcpModel.Schema
 import FcpModel.Wire
 import FcpModel.WireTrunc
+import FcpModel.PyCodec
+import FcpModel.Json
